@@ -1051,6 +1051,23 @@ class CallMixin:
             return SV(cur.ty, cur.t)
         return SV(v.ty, v.t, None, v.py)
 
+    def spec_cur(self, node):
+        """cur('x', default): current value of local x (loop invariants), default when it is not bound yet."""
+        name = ast.literal_eval(node.args[0])
+        if name in self.ctx.locals:
+            return self.lookup(name, node)
+        return self.eval(node.args[1])
+
+    def spec_cur_path(self, node):
+        """cur_path('x', 'a.b', default): x.a.b for the current local x, `default` while x is not bound."""
+        name = ast.literal_eval(node.args[0])
+        if name not in self.ctx.locals:
+            return self.eval(node.args[2])
+        v = self.lookup(name, node)
+        for attr in ast.literal_eval(node.args[1]).split("."):
+            v = self.get_attr(v, attr, node)
+        return v
+
     def spec_int_of(self, node):
         (v,) = self.args_of(node)
         return self.as_int(v, node)
@@ -1173,7 +1190,7 @@ _EMPTY_SET = _EmptyS()
 
 SPEC_FORMS = {
     "forall", "exists", "implies", "iff", "ite", "old", "asc", "desc", "distinct", "elems", "dom", "card",
-    "subset", "empty_set", "is_none", "some", "clock", "raised", "ghost", "get", "int_of", "str_of", "lpre", "pos", "eq_ci", "local", "list_of", "single", "same", "is_numeral",
+    "subset", "empty_set", "is_none", "some", "clock", "raised", "ghost", "get", "int_of", "str_of", "lpre", "pos", "eq_ci", "local", "list_of", "single", "same", "is_numeral", "cur", "cur_path",
 }
 
 import itertools
